@@ -87,7 +87,7 @@ Definition doc_has (f : selection -> bool) (D : document) : bool :=
 Definition ends_in_index (p : rpath) : bool :=
   match rev p with PIdx _ :: _ => true | _ => false end.
 
-Definition classes (Sc : schema) (D : document) (sp : response) (m_errs : list gerror) (flags : list sexp)
+Definition classes (Sc : schema) (D : document) (E : env) (sp : response) (m_errs : list gerror) (flags : list sexp)
   : list string :=
   let errs := negb (Nat.eqb (List.length (all_errors sp)) 0) in
   let propagated := existsb (fun pc => existsb (fun e => Nat.ltb (List.length (fst pc)) (List.length (e_path e)))
@@ -99,7 +99,24 @@ Definition classes (Sc : schema) (D : document) (sp : response) (m_errs : list g
   let abstract_frag :=
     doc_has (fun s => match s with SInline (Some c) _ _ _ => is_abstract c | _ => false end) D
     || existsb (fun fr => is_abstract (fr_cond fr)) (frags D) in
+  let merged_root :=
+    match s_root_type Sc (op_kind D) with
+    | Some rt => match s_collect Sc D E (default_fuel D) rt (op_sels D) with
+                 | Some gs => existsb (fun kf => Nat.ltb 1 (List.length (snd kf))) gs
+                 | None => false
+                 end
+    | None => false
+    end in
+  let repeated_spread :=
+    doc_has (fun s => match s with
+                      | SField _ _ _ _ sub | SInline _ _ _ sub =>
+                          let names := flat_map (fun x => match x with SSpread n _ _ => [n] | _ => [] end) sub in
+                          negb (Nat.eqb (List.length names) (List.length (first_occurrences names [])))
+                      | SSpread _ _ _ => false
+                      end) D in
   (if errs then ["errors"] else ["no-error"]) ++
+  (if merged_root then ["merged-field-nodes-at-root"] else []) ++
+  (if repeated_spread then ["repeated-spread"] else []) ++
   (if propagated then ["propagated"] else []) ++
   (match data sp with None => ["data-null"] | Some _ => [] end) ++
   (if short then ["short-circuit"] else []) ++
@@ -125,6 +142,16 @@ Definition check (c : sexp) : sexp :=
               let fuel := default_fuel D in
               if negb (type_names_okb Sc) then v_bad "type-name-with-zero-byte"
               else if negb (doc_positions_okb D) then v_oracle_fail "parser-positions-not-distinct" []
+              else if negb (dirs_evaluable D E) then
+                (* outside the property: a @skip/@include condition without a boolean value (a
+                   variable without value in an unvalidated document; an explicit null for a
+                   nullable variable with a default in a validated one).  The executor model —
+                   error for the directive, selection left out, once per cache miss — is compared *)
+                match run fixed Sc D E fuel W with
+                | OutOfFuel => v_bad "out-of-fuel"
+                | m => if agrees m obs then v_ok ["directive-not-evaluable"]
+                       else v_mismatch "response-directive-not-evaluable" [tag "model" [of_run m]]
+                end
               else if negb (doc_ok Sc D E fuel fuel) then
                 (* outside the property: only a document handed over without validation may get
                    here; the executor model is still compared (blank keys, panics) *)
@@ -146,7 +173,7 @@ Definition check (c : sexp) : sexp :=
                     | OutOfFuel => v_bad "out-of-fuel"
                     | Panic => v_mismatch "response" [tag "model" [of_run m]]
                     | Done _ m_errs =>
-                        if agrees m obs then v_ok (classes Sc D sp m_errs flags)
+                        if agrees m obs then v_ok (classes Sc D E sp m_errs flags)
                         else v_mismatch "response" [tag "model" [of_run m]]
                     end
                 end
